@@ -173,6 +173,7 @@ class Executor(object):
         self._loops_done = set()
         self.stats = dict(feasibility_checks=0, paths=0)
         self._module_state_cache = {}
+        self.inline_private_methods = False   # opt-in: private methods without a contract are executed in place
         self.local_classes = False            # opt-in: class statements inside functions bind a record of the class and its closure
         self.annihilations = None             # opt-in: list of (array operand, line) multiplied by the constant zero
         self.cmp_log = {}                     # name of the fresh boolean of an unmodelled comparison -> (op, left, right)
@@ -1214,6 +1215,10 @@ class Executor(object):
                     if k and k in self.contracts and not self.contracts[k].inline:
                         return self.apply_contract(self.contracts[k], [v] + list(args), kwargs, st, ctx, node)
                 if fi is not None and (key in self.inline or ckey in self.inline or name in self.inline):
+                    return self.call_function(fi, [v] + list(args), kwargs, st, ctx, node)
+                if fi is not None and self.inline_private_methods and name.lstrip("_") != name and not name.endswith("__"):
+                    # a private helper of the class under verification (typically introduced by a refactoring): no contract of its own,
+                    # its real body is part of the method that calls it
                     return self.call_function(fi, [v] + list(args), kwargs, st, ctx, node)
                 if fi is not None:
                     self.note_unmodelled(ctx, "method %s has no contract: havoc receiver" % key)
